@@ -1,11 +1,14 @@
 SPECIFICATION TraceSpec
 CONSTANTS
-  Groups = {"wallet", "blockrelay", "messenger", "controller", "cache", "validators", "attester", "registrar", "bids", "restcfg", "exechead", "syncagg", "bestvotes", "bidstrategy", "dirk"}
+  Groups = {"wallet", "blockrelay", "messenger", "controller", "cache", "validators", "attester", "registrar", "bids", "restcfg", "exechead", "syncagg", "bestvotes", "bidstrategy", "dirk", "syncduty"}
   Pinned = FALSE
   InPlace = FALSE
   Reuse = FALSE
+  WideEnv = TRUE
+  Share = "period"
+  AliasWrite = "none"
   MaxPar = 3
-INVARIANTS TypeOK Linearizable
+INVARIANTS TypeOK Linearizable SharedImmutable
 CONSTRAINT HWM
 POSTCONDITION TraceAccepted
 CHECK_DEADLOCK FALSE
